@@ -67,10 +67,11 @@ class C06(SpecValueCheck):
         return p
 
     def valcfg(self, tier, shard):
-        # unused bits are kept clean: whether a DEFAULT-valued component is encoded is a sender's option in
+        # BIT STRINGs without named bits carry garbage in the unused bits of the last octet (X.696 13: written as zero);
+        # named-bit strings are kept clean: whether a DEFAULT-valued component is encoded is a sender's option in
         # BASIC-OER, and the library only recognises a default BIT STRING when its unused bits are zero
         return values.ValCfg(numeric_enums=shard['ne'], big=shard.get('big', False), nan=False, neg_zero=False,
-                             max_len=40, dirty_bits=False)
+                             max_len=40, dirty_bits='unnamed')
 
     def default_modulo_trailing_bits(self, x):
         """a DEFAULT member of a named-bit BIT STRING type whose value ends in a zero bit: it may equal the default only
@@ -78,9 +79,13 @@ class C06(SpecValueCheck):
         library writes it unless the bit count also agrees)"""
         for n in common.walk_values(x.spec, x.ty, x.modname, x.v):
             if n.member is not None and n.member.has_default and n.r.base.kind == 'BIT STRING' \
-                    and n.r.base.named_bits and isinstance(n.value, tuple):
+                    and isinstance(n.value, tuple):
                 data, nbits = n.value
-                if nbits > 0 and not (data[(nbits - 1) // 8] >> (7 - (nbits - 1) % 8)) & 1:
+                if n.r.base.named_bits and nbits > 0 and not (data[(nbits - 1) // 8] >> (7 - (nbits - 1) % 8)) & 1:
+                    return True
+                # garbage in the unused bits of the last octet (or octets beyond it): the library compares with the
+                # default before it cleans the value, so an equal value is written - the sender's option again
+                if len(data) > (nbits + 7) // 8 or (nbits % 8 and data[(nbits - 1) // 8] & (0xff >> (nbits % 8))):
                     return True
         return False
 
@@ -89,7 +94,7 @@ class C06(SpecValueCheck):
         if e is None:
             return
         if self.default_modulo_trailing_bits(x):
-            x.rec.cls('excluded:default-named-bits-trailing-zero(sender-option)')
+            x.rec.cls('excluded:default-bit-string-not-normalised(sender-option)')
             return
         e = bytes(e)
         x.rec.ev()
